@@ -691,8 +691,34 @@ func runC14(c *Ctx) {
 			if !touches {
 				continue
 			}
+			// a caller holds the lock itself, or is another unlocked helper of the same adapter
+			// every call of which comes from under the lock (refactoring B21_r6: prepareNext ->
+			// prepareBodyAsMessage)
+			isMethod := map[*ssa.Function]bool{}
+			for _, mm := range methods {
+				isMethod[mm] = true
+			}
+			var underLock func(fn *ssa.Function, depth int) bool
+			underLock = func(fn *ssa.Function, depth int) bool {
+				if locked[fn] {
+					return true
+				}
+				if depth > 3 || !isMethod[fn] {
+					return false
+				}
+				es := p.Callers(fn)
+				if len(es) == 0 {
+					return false
+				}
+				for _, e2 := range es {
+					if e2.Kind != "static" || !(underLock(e2.Caller, depth+1) || prePublication(p, handle, e2.Site, 0)) {
+						return false
+					}
+				}
+				return true
+			}
 			for _, e := range p.Callers(m) {
-				okCaller := locked[e.Caller]
+				okCaller := underLock(e.Caller, 0)
 				if !okCaller && prePublication(p, handle, e.Site, 0) {
 					c.Exception(FuncName(e.Caller)+" -> "+FuncName(m), "pre-publication: called (within the request handler, possibly through its helpers) before the handler is dispatched, the adapter is not yet visible to another goroutine")
 					okCaller = true
